@@ -73,95 +73,140 @@ def _g12(facts, rep):
         rep.indet('E23: collect_gen_info not found')
         return
     rep.saw(cg)
-    H, I, K = 'next(IT1).Some.0.1', 'next(IT1).Some.0.0', 'next(IT2).Some.0'
-    ENTRY = 'or_insert_with(entry(TABLE, isize2::isize2{0: %s, 1: q_deg(&gen(%s, %s))}), closure<{closure#0}>)' % (I, H, K)
-    free = tors = 0
-    rng_ok = None
-    probs = []
-    unknown = []
-    for p in SymEx(cg, havoc_loops=True, max_paths=20000).run():
-        calls = [(e.name.split('::')[-1], [argstr(a) for a in e.args]) for e in p.calls()]
-        flat = []
-        for n, a in calls:
-            flat.extend(a)
-        brs = [sk(e.term) for e in p.branches()]
-        wr = [(lvs(e.lv) if e.lv else '', sk(e.term)) for e in p.events if e.kind == 'write']
-        allstr, _ = canon_iters([s for n, a in calls for s in a] + brs + [x for w in wr for x in w])
-        # re-split
-        it = iter(allstr)
-        calls = [(n, [next(it) for _ in a]) for n, a in calls]
-        brs = [next(it) for _ in brs]
-        wr = [(next(it), next(it)) for _ in wr]
-        tbl = [a[0] for n, a in calls if n == 'entry']
-        for n, a in calls:
-            if n == 'into_iter' and a and a[0].startswith('Range::Range'):
-                want = 'Range::Range{start: 0, end: AddWithOverflow(rank(%s), len(tors(%s))).0}' % (H, H)
-                rng_ok = (a[0] == want) if rng_ok in (None, True) else False
-                if a[0] != want:
-                    if re.match(r'^Range::Range\{start: \d+, end: (AddWithOverflow|SubWithOverflow|rank|len|tors|next|IT1|Some|[0-9]|[()., ])*\}$', a[0]):
-                        probs.append('generators are enumerated over %s, expected 0 .. rank + #tors' % a[0])
-                    else:
-                        unknown.append('generators are enumerated over %s' % a[0][:120])
-        inner = [(b, e.value) for b, e in zip(brs, p.branches()) if b == 'discr(next(IT2))']
-        if not inner or inner[-1][1] != 1:
+
+    def nk(t):
+        x = lvs(t[1]) if (t and t[0] == 'mref') else sk(t)
+        return re.sub(r'&mut _\d+', 'IT', x).replace('&mut ', '').replace('&', '').replace('*', '')
+    try:
+        paths = SymEx(cg, havoc_loops=True, max_paths=20000).run()
+    except Exception as e:
+        rep.indet('E23.G1: collect_gen_info: %s' % e)
+        return
+    # source of every loop iterator: the value the iterator local held on entry to its loop
+    src_of = {}
+    for p in paths:
+        for (fid, bb, l), v in p.state.loop_entry.items():
+            if fid == 0 and strip(v)[0] != 'loopvar':
+                src_of.setdefault(l, set()).add(nk(v))
+    probs, unknown = [], []
+    domains = {}
+
+    def it_local(t):
+        """next(&mut _L).Some.0 -> L"""
+        t = strip(t)
+        if t[0] == 'field' and t[2] == 'Some.0' and t[1][0] == 'call' and t[1][1].endswith('Iterator::next') and t[1][2][0][0] == 'mref' and t[1][2][0][1][0][0] == 'local':
+            return t[1][2][0][1][0][1]
+        return None
+    for p in paths:
+        ents = [e for e in p.calls() if e.name.split('::')[-1] == 'entry' and len(e.args) == 2]
+        if not ents:
             continue
-        if len(tbl) != 1:
-            unknown.append('generator k touches %d table entries' % len(tbl))
+        if len(ents) != 1:
+            unknown.append('a generator touches %d table entries' % len(ents))
             continue
-        entry = ENTRY.replace('TABLE', tbl[0])
-        RK = 'rank(%s)' % H
-        lt = [(re.match(r'(Lt|Le|Gt|Ge)\((.*), (.*)\)$', b), e.value) for b, e in zip(brs, p.branches())]
-        lt = [(m, v) for m, v in lt if m and {m.group(2), m.group(3)} == {K, RK}]
-        if len(lt) != 1:
-            unknown.append('the free / torsion decision is not a single comparison of k with rank: %s' % [b for b in brs if b[:3] in ('Lt(', 'Le(', 'Gt(', 'Ge(')][:2])
+        key = strip(ents[0].args[1])
+        if not (key[0] == 'adt' and key[2] == 'isize2' and len(key[4]) == 2):
+            unknown.append('the table key is %s' % nk(key)[:80])
             continue
-        m, v = lt[0]
-        region = set()
-        for kk in range(0, 4):
-            for rr in range(0, 4):
-                x, y = (kk, rr) if m.group(2) == K else (rr, kk)
-                holds = {'Lt': x < y, 'Le': x <= y, 'Gt': x > y, 'Ge': x >= y}[m.group(1)]
-                if holds == (v != 0):
-                    region.add((kk, rr))
-        free_region = {(kk, rr) for kk in range(4) for rr in range(4) if kk < rr}
-        all_region = {(kk, rr) for kk in range(4) for rr in range(4)}
-        if region == free_region:
-            is_free = True
-        elif region == all_region - free_region:
-            is_free = False
+        I, Q = key[4]
+        q = strip(Q)
+        g = strip(q[2][0]) if q[0] == 'call' and q[1].split('::')[-1] == 'q_deg' and len(q[2]) == 1 else None
+        if g is None or not (g[0] == 'call' and g[1].split('::')[-1] == 'gen' and len(g[2]) == 2):
+            unknown.append('the q-coordinate of the key is %s' % nk(Q)[:80])
+            continue
+        Hs, Ks = nk(g[2][0]), nk(g[2][1])
+        if not (Hs.endswith('.Some.0.1') and nk(I) == Hs[:-1] + '0'):
+            probs.append('generator %s of summand %s is filed under the homological degree %s' % (Ks, Hs, nk(I))) if re.match(r'next\(IT\)\.Some\.0\.[01]$', nk(I)) else unknown.append('key degree %s for summand %s' % (nk(I), Hs))
+            continue
+        # the index k: which loop produces it, over which source
+        kt = strip(g[2][1])
+        comp = None
+        L = it_local(kt)
+        if L is None and kt[0] == 'field' and kt[2] in ('0', '1'):
+            L, comp = it_local(kt[1]), kt[2]
+        srcs = src_of.get(L, set()) if L is not None else set()
+        RK, TL = 'rank(%s)' % Hs, 'len(tors(%s))' % Hs
+        dom = None
+        if srcs == {'into_iter(Range::Range{start: 0, end: AddWithOverflow(%s, %s).0})' % (RK, TL)} and comp is None:
+            dom = 'unified'
+        elif srcs == {'into_iter(Range::Range{start: 0, end: %s})' % RK} and comp is None:
+            dom = 'free'
+        elif comp == '0' and srcs in ({'into_iter(zip(RangeFrom::RangeFrom{start: %s}, iter(tors(%s))))' % (RK, Hs)}, {'into_iter(zip(RangeFrom::RangeFrom{start: %s}, iter(deref(tors(%s)))))' % (RK, Hs)}):
+            dom = 'tors'
+        elif len(srcs) == 1 and re.match(r'into_iter\(Range::Range\{start: \d+, end: (AddWithOverflow|SubWithOverflow|rank|len|tors|next|IT|Some|[0-9]|[()., ])*\}\)$', next(iter(srcs))) and comp is None:
+            probs.append('generators are enumerated over %s, expected 0 .. rank + #tors' % next(iter(srcs))[10:-1])
+            continue
         else:
-            probs.append('the free / torsion decision is `%s` = %s instead of `k < rank`' % (m.group(0), v != 0))
+            unknown.append('generator index %s ranges over %s' % (Ks, sorted(srcs)))
             continue
-        pushes = [a for n, a in calls if n == 'push']
-        idx_push = [a for a in pushes if a[0] == '&mut *%s.2' % entry and a[1] == K]
-        tor_push = [a for a in pushes if a[0] == '&mut *%s.1' % entry]
-        cnt = [w for w in wr if w[0] == '&mut *%s.0' % entry]
-        other = [a for a in pushes if a not in idx_push and a not in tor_push]
-        if not pushes or any(a[0] != '&mut *%s.2' % entry for a in other):
-            unknown.append('generator k is recorded through %s' % ([[x[:70] for x in a] for a in pushes] or 'no push'))
+        # what the path does to the entry
+        E = None
+        for e in p.calls():
+            if e.name.split('::')[-1] in ('or_insert_with', 'or_default', 'or_insert') and e.args and strip(e.args[0])[0] == 'call' and strip(e.args[0])[3] == ents[0].site:
+                E = ('call', e.name, e.args, e.site)
+        if E is None:
+            unknown.append('the entry is not obtained through or_insert_with / or_default')
             continue
-        if len(idx_push) != 1 or len(pushes) != len(idx_push) + len(tor_push):
-            probs.append('generator k (%s) does not record its index exactly once under (i, q_deg(gen k)): pushes %s' % ('free' if is_free else 'torsion', [[x[:70] for x in a] for a in pushes]))
+        Es = nk(E)
+        pushes = [(nk(e.args[0]), nk(e.args[1])) for e in p.calls() if e.name.split('::')[-1] == 'push' and len(e.args) == 2]
+        idx_push = [x for x in pushes if x[0] == Es + '.2']
+        tor_push = [x for x in pushes if x[0] == Es + '.1']
+        other = [x for x in pushes if x not in idx_push and x not in tor_push]
+        cnt = [nk(e.term) for e in p.events if e.kind == 'write' and e.lv and nk(('mref', e.lv)) == Es + '.0']
+        if other or not pushes:
+            unknown.append('generator k is recorded through %s' % ([x[0][-40:] for x in pushes] or 'no push'))
+            continue
+        if dom == 'unified':
+            cmpb = [(re.match(r'(Lt|Le|Gt|Ge)\((.*), (.*)\)$', nk(e.term)), e.value) for e in p.branches()]
+            cmpb = [(m, v) for m, v in cmpb if m and {m.group(2), m.group(3)} == {Ks, RK}]
+            if len(cmpb) != 1:
+                unknown.append('the free / torsion decision is not a single comparison of k with rank')
+                continue
+            m, v = cmpb[0]
+            region = set()
+            for kk in range(4):
+                for rr in range(4):
+                    x, y = (kk, rr) if m.group(2) == Ks else (rr, kk)
+                    if {'Lt': x < y, 'Le': x <= y, 'Gt': x > y, 'Ge': x >= y}[m.group(1)] == (v != 0):
+                        region.add((kk, rr))
+            free_region = {(kk, rr) for kk in range(4) for rr in range(4) if kk < rr}
+            if region == free_region:
+                is_free = True
+            elif region == {(kk, rr) for kk in range(4) for rr in range(4)} - free_region:
+                is_free = False
+            else:
+                probs.append('the free / torsion decision is `%s` = %s instead of `k < rank`' % (m.group(0), v != 0))
+                continue
+            want_t = ['tors(%s)[SubWithOverflow(%s, %s).0]' % (Hs, Ks, RK)]
+        else:
+            is_free = dom == 'free'
+            want_t = [Ks[:-1] + '1']
+        want_t = want_t + ['clone(%s)' % x for x in want_t]
+        if len(idx_push) != 1 or idx_push[0][1] != Ks:
+            probs.append('a %s generator does not record its own index exactly once under (i, q_deg(gen k)): index pushes %s' % ('free' if is_free else 'torsion', [x[1][:60] for x in idx_push]))
             continue
         if is_free:
-            free += 1
-            okc = len(cnt) == 1 and cnt[0][1] == 'AddWithOverflow(*%s.0, 1).0' % entry
-            if not okc or tor_push:
-                probs.append('a free generator (k < rank) must add exactly 1 to the rank of its bidegree and no torsion: writes %s, torsion pushes %d' % ([(a[-40:], b[-60:]) for a, b in wr], len(tor_push)))
+            if len(cnt) != 1 or cnt[0] != 'AddWithOverflow(%s.0, 1).0' % Es or tor_push:
+                probs.append('a free generator (k < rank) must add exactly 1 to the rank of its bidegree and no torsion: rank writes %s, torsion pushes %d' % ([c[-50:] for c in cnt], len(tor_push)))
+                continue
         else:
-            tors += 1
-            want = '*tors(%s)[SubWithOverflow(%s, rank(%s)).0]' % (H, K, H)
-            if len(tor_push) != 1 or tor_push[0][1] not in (want, 'clone(&%s)' % want) or cnt:
-                probs.append('a torsion generator (k >= rank) must contribute tors[k - rank] and no rank: pushes %s' % [a[1][:90] for a in tor_push])
+            if len(tor_push) != 1 or tor_push[0][1] not in want_t or cnt:
+                probs.append('a torsion generator (k >= rank) must contribute tors[k - rank] and no rank: pushes %s, rank writes %d' % ([x[1][:90] for x in tor_push], len(cnt)))
+                continue
+        domains.setdefault(dom, set()).add(is_free)
     inst = 'collect_gen_info|every generator filed once under (i, q_deg), free iff k < rank'
+    covered = domains.get('unified') == {True, False} or (domains.get('free') == {True} and domains.get('tors') == {False})
     if probs:
         rep.violation('E23.G1-partition-by-qdeg', inst, '; '.join(sorted(set(probs))[:3]), where=cg.where())
-    elif unknown or free == 0 or tors == 0 or rng_ok is None:
-        rep.indet('E23.G1: collect_gen_info outside the recognised fragment (free paths %d, torsion paths %d): %s' % (free, tors, sorted(set(unknown))[:2]))
-    elif probs:
-        rep.violation('E23.G1-partition-by-qdeg', inst, '; '.join(sorted(set(probs))[:3]), where=cg.where())
+    elif unknown:
+        rep.indet('E23.G1: collect_gen_info outside the recognised fragment: %s' % sorted(set(unknown))[:2])
+    elif not covered:
+        if set(domains) == {'free'} or set(domains) == {'tors'}:
+            rep.violation('E23.G1-partition-by-qdeg', inst, 'only the %s generators are filed: the %s part of every bidegree is missing from the table' % ('free' if 'free' in domains else 'torsion', 'torsion' if 'free' in domains else 'free'), where=cg.where())
+        else:
+            rep.indet('E23.G1: collect_gen_info outside the recognised fragment (domains %s)' % {k: sorted(v) for k, v in domains.items()})
     else:
-        rep.ok('E23.G1-partition-by-qdeg', inst, 'k in 0..rank+#tors; key (i, q_deg(gen k)); rank += 1 | tors.push(tors[k-rank]); indices.push(k)')
+        rep.ok('E23.G1-partition-by-qdeg', inst, 'k in 0..rank+#tors (one loop, or 0..rank and rank.. zipped with tors); key (i, q_deg(gen k)); rank += 1 | tors.push(tors[k-rank]); indices.push(k)')
     # ---- G2
     cl = closures_of(facts, HB)
     hb = facts.bodies.get(HB)
